@@ -864,8 +864,8 @@ func c12Scenario1(c *Ctx, si int) {
 			}
 		}
 	}
-	okB := p.waitRoutes(p.B.core, int64(expect), 1500*time.Millisecond, 20*time.Second)
-	okA := p.waitRoutes(p.A.core, int64(expectAck), 1500*time.Millisecond, 20*time.Second)
+	okB := p.waitRoutes(p.B.core, int64(expect), 1500*time.Millisecond, 90*time.Second)
+	okA := p.waitRoutes(p.A.core, int64(expectAck), 1500*time.Millisecond, 90*time.Second)
 	if !okB {
 		r.Count("E:wait-routes-incomplete")
 	}
@@ -979,6 +979,12 @@ func c12CheckScenario(c *Ctx, sc c12Scenario, o w5Opts, p *w5Pair, msgs []*c12Ms
 				continue
 			}
 			if errors.Is(m.sendErr, gen.ErrTimeout) {
+				if o.RelayMode == 3 || o.LinkDelays {
+					// a deliberately slow link (byte-by-byte relay, per-link delays) can hold the reply back
+					// behind large frames for longer than the 5 s request time-out: inconclusive, not a loss
+					r.Count("E:inconclusive:request-timeout-on-slow-link")
+					continue
+				}
 				r.Violation("C12-request-timeout", fmt.Sprintf("%s got no answer within %v although the wire is in-memory", m.Kind, m.dur), where())
 				continue
 			}
